@@ -233,6 +233,17 @@ def geometricMean(phi: CellVariable):
     
     
 
+def _harmonic_face(phi0, phi1, d0, d1):
+    """Width-weighted harmonic mean of two adjacent cells (N-D arrays).
+
+    Returns 0 on faces where one of the two cells is exactly 0, as the 1D
+    implementation does (instead of evaluating 0/0).
+    """
+    zero = (phi0 == 0.0) | (phi1 == 0.0)
+    den = np.where(zero, 1.0, d1*phi0+d0*phi1)
+    return np.where(zero, 0.0, phi1*phi0*(d1+d0)/den)
+
+
 def harmonicMean(phi: CellVariable):
     """
     Interpolate a mesh-variable defined on mesh-nodes to mesh-faces by harmonic averaging adjacent node values.   
@@ -290,15 +301,15 @@ def harmonicMean(phi: CellVariable):
     elif issubclass(type(phi.domain), Grid2D):
         dx, dy = cell_size_array(phi.domain)
         return FaceVariable(phi.domain,
-            phi._value[1:,1:-1]*phi._value[0:-1,1:-1]*(dx[1:]+dx[0:-1])/(dx[1:]*phi._value[0:-1,1:-1]+dx[0:-1]*phi._value[1:,1:-1]),
-            phi._value[1:-1,1:]*phi._value[1:-1,0:-1]*(dy[:,1:]+dy[:,0:-1])/(dy[:,1:]*phi._value[1:-1,0:-1]+dy[:,0:-1]*phi._value[1:-1,1:]),
+            _harmonic_face(phi._value[0:-1,1:-1], phi._value[1:,1:-1], dx[0:-1], dx[1:]),
+            _harmonic_face(phi._value[1:-1,0:-1], phi._value[1:-1,1:], dy[:,0:-1], dy[:,1:]),
             np.array([]))
     elif issubclass(type(phi.domain), Grid3D):
         dx, dy, dz = cell_size_array(phi.domain)
         return FaceVariable(phi.domain,
-            phi._value[1:,1:-1,1:-1]*phi._value[0:-1,1:-1,1:-1]*(dx[1:]+dx[0:-1])/(dx[1:]*phi._value[0:-1,1:-1,1:-1]+dx[0:-1]*phi._value[1:,1:-1,1:-1]),
-            phi._value[1:-1,1:,1:-1]*phi._value[1:-1,0:-1,1:-1]*(dy[:,0:-1]+dy[:,1:])/(dy[:,1:]*phi._value[1:-1,0:-1,1:-1]+dy[:,0:-1]*phi._value[1:-1,1:,1:-1]),
-            phi._value[1:-1,1:-1,1:]*phi._value[1:-1,1:-1,0:-1]*(dz[:,:,0:-1]+dz[:,:,1:])/(dz[:,:,1:]*phi._value[1:-1,1:-1,0:-1]+dz[:,:,0:-1]*phi._value[1:-1,1:-1,1:]))
+            _harmonic_face(phi._value[0:-1,1:-1,1:-1], phi._value[1:,1:-1,1:-1], dx[0:-1], dx[1:]),
+            _harmonic_face(phi._value[1:-1,0:-1,1:-1], phi._value[1:-1,1:,1:-1], dy[:,0:-1], dy[:,1:]),
+            _harmonic_face(phi._value[1:-1,1:-1,0:-1], phi._value[1:-1,1:-1,1:], dz[:,:,0:-1], dz[:,:,1:]))
     
     
 def upwindMean(phi: CellVariable, u: FaceVariable):
